@@ -31,10 +31,57 @@ META = {
 FEATS = {"cut": 1, "ite": 1, "naf": 1, "call": 1, "arith": 1, "types": 1, "err": 1, "rec": 1, "big": 1}
 
 
+def shape_corpus():
+    """Systematic family (always run first): a clause that ENDS in a control construct whose branches pass, in their last
+    call, a permanent variable that first occurred before the construct (as a body-goal argument, in a unification, or in the
+    head) and may still be unbound; callees with and without an environment of their own.  Added after the seeded change
+    seeded/C07-unsafe-var-globally-unneeded (debray_allocator) was missed by the random generator."""
+    A, I, V, C, conj, TRUE = S.A, S.I, S.V, S.C, S.conj, S.TRUE
+    out = []
+    n = 0
+    for ctrl in ("ite", "disj", "ite3", "disj_ite", "ite_then_goal"):
+        for first in ("goal", "unif", "head"):
+            for env in (True, False):
+                for qbinds in (False, True):
+                    pfx = "sc%d_" % n
+                    n += 1
+                    p, q, r, s_, t = [pfx + x for x in "pqrst"]
+                    T, R, Y = V("T"), V("R"), V("Y")
+                    call_r, call_s = C(r, Y, R), C(s_, Y, R)
+                    ta, tb = C("==", T, A("a")), C("==", T, A("b"))
+                    if ctrl == "ite": ctl = C(";", C("->", ta, call_r), call_s)
+                    elif ctrl == "disj": ctl = C(";", conj([ta, call_r]), call_s)
+                    elif ctrl == "ite3": ctl = C(";", C("->", ta, call_r), C(";", C("->", tb, call_s), call_r))
+                    elif ctrl == "disj_ite": ctl = C(";", C(";", C("->", ta, call_r), call_s), call_r)
+                    else: ctl = C(";", C("->", ta, conj([C(q, V("W")), call_r])), call_s)
+                    if first == "goal": head, pre = C(p, T, R), [C(q, Y)]
+                    elif first == "unif": head, pre = C(p, T, R), [C("=", Y, C("w", V("U")))]
+                    else: head, pre = C(p, T, R, Y), [C(q, V("W0"))]
+                    prog = [(head, conj(pre + [ctl]))]
+                    prog.append((C(q, A("k") if qbinds else V("X")), TRUE))
+                    def body():
+                        if env: return conj([C(t, V("B")), C("=", V("R"), C("-", V("A"), V("B")))])
+                        return C("=", V("R"), C("-", V("A"), I(5)))
+                    prog.append((C(r, V("A"), V("R")), body()))
+                    prog.append((C(s_, V("A"), V("R")), body()))
+                    prog.append((C(t, I(5)), TRUE))
+                    queries = []
+                    for x in ("a", "b", "c"):
+                        if first == "head": queries.append((C(p, A(x), V("Q0"), V("Q1")), C("ans", V("Q0"), V("Q1"))))
+                        else: queries.append((C(p, A(x), V("Q0")), C("ans", V("Q0"))))
+                    out.append((prog, queries))
+    return out
+
+
 def run(ctx):
     rng = ctx.rng
     nprog = ctx.scale(400, 12000)
     jobs, meta = [], {}
+    for prog, queries in shape_corpus():
+        jid = "j%d" % len(jobs)
+        jobs.append({"id": jid, "text": S.program_text(prog), "queries": queries})
+        meta[jid] = (prog, queries)
+    nprog += len(jobs)
     dist = {"programs": 0, "regenerated_too_big": 0, "dropped_impl": 0, "dropped_model_nofuel": 0, "dropped_model_cyclic_or_unsupported": 0,
             "dropped_model_many_answers": 0, "with_exception": 0, "with_answers": 0, "no_answers": 0, "cut_in_cond_programs": 0}
     while len(jobs) < nprog:
